@@ -34,6 +34,8 @@ mod verif_hooks;
 pub use verif_hooks::{VerifCompaction, verif_set_point_hook};
 #[cfg(blue_verif)]
 pub use verif_hooks::{VerifParked, verif_select};
+#[cfg(blue_verif)]
+pub use verif_hooks::VerifPending;
 
 use recover::recover;
 
